@@ -307,4 +307,86 @@ theorem stack_handleMsg {σ : Type} (S : Store σ) (hS : StoreWf S) (c : SrvCfg)
   rw [eg, A.lookup _ _ _ hg] at ha
   exact hb a ha
 
+/-! ### `handle` keeps the range fields (so `DbBounded` holds along a whole history)
+
+Proved over abstract database steps `P` (`aHandle0`), so that nothing in the statement can be unfolded: stated directly
+on `handle`, the kernel evaluates `updateClient … (some (Ip4.ofNat a)) …` with `a` a variable while checking the case
+splits and runs out of stack. -/
+
+theorem SameRanges.trans {σ : Type} {a b c : IPDB σ} (h1 : SameRanges a b) (h2 : SameRanges b c) : SameRanges a c := by
+  obtain ⟨p1, p2, p3, p4⟩ := h1
+  obtain ⟨q1, q2, q3, q4⟩ := h2
+  exact ⟨q1.trans p1, q2.trans p2, q3.trans p3, q4.trans p4⟩
+
+/-- Database steps that leave the range fields alone. -/
+structure KeepRanges {σ : Type} (P : Ops σ) : Prop where
+  lookup : ∀ db t d, SameRanges db (P.lookup db t d).1
+  find : ∀ db t sugg d perm iters, SameRanges db (P.find db t sugg d perm iters).1
+  update : ∀ db t ip d ttl, SameRanges db (P.update db t ip d ttl).1
+
+theorem aGetDuid_same {σ : Type} {P : Ops σ} (K : KeepRanges P) (db : IPDB σ) (t : Int) (hw cid : Bytes) :
+    SameRanges db (aGetDuid P db t hw cid).1 := by
+  unfold aGetDuid
+  simp only
+  split
+  · exact K.lookup db t _
+  · split <;> exact K.lookup db t _
+
+/-- A handler over such steps leaves the range fields alone. -/
+theorem aHandle0_same {σ : Type} {P : Ops σ} (K : KeepRanges P) (c : SrvCfg) (db : IPDB σ) (rx : Rx) (o : HOracle) :
+    SameRanges db (aHandle0 P c db rx o).1 := by
+  have hg := aGetDuid_same K db o.t0 rx.msg.chaddr (decodeOptions rx.msg.options).clientIdentifier
+  unfold aHandle0
+  simp only
+  generalize aGetDuid P db o.t0 rx.msg.chaddr (decodeOptions rx.msg.options).clientIdentifier = g at hg
+  generalize aTodo P c g.1 rx = td
+  cases td with
+  | drop => exact hg
+  | discover =>
+    have hf := hg.trans (K.find g.1 o.t1 (decodeOptions rx.msg.options).requestedIP g.2 o.perm o.iters)
+    simp only
+    split
+    · exact hf
+    · split <;> exact hf.trans (K.update _ _ _ _ _)
+  | request want =>
+    have hl := hg.trans (K.lookup g.1 o.t1 g.2)
+    simp only
+    split
+    · exact hl
+    · split
+      · exact hl
+      · split
+        · exact hl
+        · split <;> exact hl.trans (K.update _ _ _ _ _)
+
+theorem of_keep {σ : Type} (S : Store σ) : KeepRanges (Ops.of S) where
+  lookup := fun db t d => lookup_same S db t d
+  find := fun db t sugg d perm iters => find_same S db t sugg d perm iters
+  update := fun db t ip d ttl => update_same S db t ip d ttl
+
+/-- `handle` only ever changes the store of the database. -/
+theorem handle_same {σ : Type} (S : Store σ) (c : SrvCfg) (db : IPDB σ) (rx : Rx) (o : HOracle) :
+    SameRanges db (handle S c db rx o).1 := by
+  rw [handle_abs]
+  exact aHandle0_same (of_keep S) c db rx o
+
+theorem handle_bounded {σ : Type} (S : Store σ) (c : SrvCfg) (db : IPDB σ) (rx : Rx) (o : HOracle) (h : DbBounded db) :
+    DbBounded (handle S c db rx o).1 := (handle_same S c db rx o).bounded h
+
+/-! ### whole sequential histories (statement fixed in Props/C01CodeStack.lean) -/
+
+/-- The translated stack on a history of received packets ends, without a panic, in the database and the frames of the
+model handling the same packets one after the other. -/
+theorem stack_sequence {σ : Type} (S : Store σ) (hS : StoreWf S) (c : SrvCfg) (sx : Gen.server.server) (db : IPDB σ)
+    (hist : List (Rx × HOracle × Int)) (hsx : SrvOf sx c) (hdb : DbBounded db) (hok : SeqOk S c db hist) :
+    stackSeq S c sx db hist = .ok (handleSeq S c db (hist.map fun x => (x.1, x.2.1))) := by
+  induction hist generalizing db with
+  | nil => rfl
+  | cons x rest ih =>
+    obtain ⟨rx, o, rnd⟩ := x
+    obtain ⟨hm, hb, hrest⟩ := hok
+    obtain ⟨st, hrun, hd, hsent⟩ := stack_handleMsg S hS c sx db rx o rnd hsx hm hb hdb
+    have ih' := ih (handle S c db rx o).1 (handle_bounded S c db rx o hdb) hrest
+    simp only [stackSeq, hrun, hd, ih', hsent, List.map_cons, handleSeq]
+
 end PsaDhcp.Proofs.CodeStack
